@@ -5,6 +5,7 @@ package main
 import (
 	"fmt"
 	"go/token"
+	"go/types"
 	"os"
 	"sync/atomic"
 	"sort"
@@ -114,6 +115,8 @@ type Engine struct {
 	fmtDeps             map[string][]*Term
 	hints               map[*Term][2]uint64
 	jsonNames           map[string]string
+	docs                map[*Object]*PtrV
+	cfgType             types.Type
 	stop                atomic.Bool
 	mergeLoss           bool // the last merge turned concrete lengths into symbolic ones
 	arrSyms             map[string]*ArrSym
@@ -147,10 +150,11 @@ func NewEngine(ld *Loaded, cfg Config) (*Engine, error) {
 	e := &Engine{tm: tm, solver: s, prog: ld.prog, ld: ld, cfg: cfg, arrCache: map[arrReadKey]*Term{},
 		fnInfos: map[*ssa.Function]*fnInfo{}, globals: map[*ssa.Global]*Object{}, violSeen: map[string]int{},
 		noMerge: map[*ssa.Function]bool{}, sentinel: map[string]*OpaqueV{}, panicsAreViolations: true,
-		globalOf: map[*Object]*ssa.Global{}, fmtDeps: map[string][]*Term{}, hints: map[*Term][2]uint64{}, jsonNames: map[string]string{}, arrSyms: map[string]*ArrSym{}, bcryptPairs: map[string]string{}}
+		globalOf: map[*Object]*ssa.Global{}, fmtDeps: map[string][]*Term{}, hints: map[*Term][2]uint64{}, jsonNames: map[string]string{}, docs: map[*Object]*PtrV{}, arrSyms: map[string]*ArrSym{}, bcryptPairs: map[string]string{}}
 	if e.cfg.Bounds == nil {
 		e.cfg.Bounds = map[string]int{}
 	}
+	e.cfgType = ld.lookupType(repoModule+"/cmds/server/config", "ServerConfig")
 	return e, nil
 }
 
